@@ -233,6 +233,17 @@ class Walker(ast.NodeVisitor):
             elif self.kw(node, "mode") is not None:
                 mode = self.lit(self.kw(node, "mode")) or "?"
             fo("open", mode, dotted(node.args[0]) if node.args else "?")
+        elif last == "open" and isinstance(node.func, ast.Attribute) and not name.startswith(
+                ("gzip.", "io.", "os.", "webbrowser.", "tarfile.", "zipfile.")):
+            # `some_path.open(mode)` / `.open(mode=...)` (pathlib): the mode is the first argument
+            mode = "r"
+            if node.args:
+                mode = self.lit(node.args[0]) or "?"
+            elif self.kw(node, "mode") is not None:
+                mode = self.lit(self.kw(node, "mode")) or "?"
+            fo("open", mode, dotted(node.func.value))
+        elif last in ("write_text", "write_bytes") and isinstance(node.func, ast.Attribute):
+            fo("open", "w", dotted(node.func.value))
         elif last in ("to_csv", "to_parquet"):
             mode = "w"
             m = self.kw(node, "mode")
